@@ -58,6 +58,9 @@ Definition can_nil (t : ty) : bool :=
 Definition go_is_nil (tv : tval) : outcome bool :=
   if can_nil (fst tv) then Ok (is_vnil (snd tv)) else Panic 4.
 
+(* reflect.Value.IsZero: nil for the nilable kinds, the zero value otherwise *)
+Definition go_is_zero (tv : tval) : bool := val_eqb (snd tv) (zero (fst tv)).
+
 (* transform.isNil (flatten_mangler.go): false on non-nilable kinds *)
 Definition soft_is_nil (tv : tval) : bool := can_nil (fst tv) && is_vnil (snd tv).
 
@@ -142,6 +145,13 @@ Definition convert (tv : tval) (d : ty) : outcome tval :=
        | TBasic ks _, TBasic kd _ => if kind_eqb ks kd then Ok (d, v) else Panic 250
        | _, _ => Ok (d, v)
        end.
+
+(* assignableOrConverted (flatten_mangler.go): the value in a form that can be
+   Set on a slot of type t, or None *)
+Definition assign_or_convert (v : tval) (t : ty) : outcome (option tval) :=
+  if assignable (fst v) t then Ok (Some v)
+  else if convertible (fst v) t then (c <- convert v t ;; Ok (Some c))
+  else Ok None.
 
 (* Value.Set into a slot of type t *)
 Definition set_into (t : ty) (tv : tval) : outcome val :=
